@@ -114,8 +114,10 @@ def c05_composed_matrix_layout(v):
 
 def c12_lognormal_nonpositive(v):
     """
-    LogNormalFilter / LogNormalKDEFilter with a non-positive simulated value:
-    log() gives NaN scores on plain arrays, while masked-array arithmetic
+    LogNormalFilter / LogNormalKDEFilter with a non-positive simulated value,
+    or any filter with a zero sample variance at a time point (all simulated
+    individuals share one value): log() / the division give NaN scores on
+    plain arrays, while masked-array arithmetic
     (measurements with NaN) masks the invalid cells and returns a finite score
     without them.  Attributed only to the dedicated non-positive-simulation
     monitor, only for the two log-normal filters, and only when the plain
@@ -126,7 +128,14 @@ def c12_lognormal_nonpositive(v):
         return False
     if not v['mechanism'].startswith(
             ('nonpositive_simulation_scores_differ:LogNormalFilter',
-             'nonpositive_simulation_scores_differ:LogNormalKDEFilter')):
+             'nonpositive_simulation_scores_differ:LogNormalKDEFilter',
+             # same mechanism, other trigger: a zero sample variance at a
+             # time point (division by zero is masked by np.ma as well)
+             'zero_variance_simulation_scores_differ:GaussianFilter',
+             'zero_variance_simulation_scores_differ:GaussianKDEFilter',
+             'zero_variance_simulation_scores_differ:GaussianMixtureFilter',
+             'zero_variance_simulation_scores_differ:LogNormalFilter',
+             'zero_variance_simulation_scores_differ:LogNormalKDEFilter')):
         return False
     sc = v.get('detail', {}).get('scores', {})
 
